@@ -115,6 +115,8 @@ type Net struct {
 	// UnixFailNext: the next n writes to the path fail with ECONNREFUSED
 	UnixFailNext map[string]int
 	UnixOpen     map[string]bool
+	// DialFailNext: the next n attempts to create a connected UDP socket fail with EMFILE
+	DialFailNext int
 }
 
 type UnixWrite struct {
@@ -316,11 +318,23 @@ func DialUDP(network, laddr, raddr string) (net.Conn, error) {
 	inc := vsim.CurInc()
 	var sk *sock
 	var local string
+	failed := false
 	vsim.Call(func() {
 		w := W
+		if w.Net.DialFailNext > 0 {
+			// the process is out of file descriptors (or memory for socket
+			// buffers): socket() fails
+			w.Net.DialFailNext--
+			w.Net.Stats["dial-failed-emfile"]++
+			failed = true
+			return
+		}
 		local = w.normLocal(laddr)
 		sk = w.Net.newSock(inc, skConn, local, raddr)
 	})
+	if failed {
+		return nil, &net.OpError{Op: "dial", Net: "udp", Err: os.NewSyscallError("socket", syscall.EMFILE)}
+	}
 	return &UDPConn{s: sk, local: vsim.CloneString(local), remote: raddr}, nil
 }
 
